@@ -608,9 +608,67 @@ def check_packet_case(case, res):
             return
 
 
+def concurrent_write_leg(res, rng):
+    """user space assigns an array-map variable while the loaded program
+    (another thread hammering BPF_PROG_TEST_RUN) counts in a neighbouring
+    variable of the same 8-byte word: none of the program's increments may
+    get lost, the neighbours keep their values"""
+    import threading
+    f1, f2 = rng.choice(["B", "H"]), rng.choice(["B", "H", "I"])
+    m = ArrayMap()
+    ns = {"license": "GPL", "m": m, "cnt": m.globalVar("I"),
+          "flag": m.globalVar(f1), "other": m.globalVar(f2),
+          "wide": m.globalVar("Q")}
+
+    def program(self):
+        self.cnt += 1
+        self.r0 = 2
+        self.exit()
+    ns["program"] = program
+    N = 30000
+    with kern.session() as sess:
+        e = type("VfCW", (XDP,), ns)()
+        ld = prog.Loaded(e, sess)
+        try:
+            ld.load()
+        except OSError:
+            res.count("concurrent_write_leg_not_loaded")
+            return
+        try:
+            e.other = 7
+            e.wide = 0x1122334455667788
+            stop = []
+
+            def runner():
+                kern.test_run(ld.fd, bytes(64), repeat=N)
+                stop.append(1)
+            t = threading.Thread(target=runner)
+            t.start()
+            writes = 0
+            while not stop:
+                e.flag = writes & 0x7f
+                writes += 1
+            t.join()
+            res.case(["concurrent-write", f1, f2, writes],
+                     nontrivial=writes > 10)
+            res.count("python_writes_during_program_runs", writes)
+            res.count("program_runs_during_python_writes", N)
+            if e.cnt != N or e.other != 7 or e.wide != 0x1122334455667788:
+                res.violation(
+                    "unexplained:python-write-disturbs-neighbour",
+                    f"the program counted {N} times while Python assigned a "
+                    f"neighbouring variable {writes} times: counter reads "
+                    f"{e.cnt}, the other variables {e.other}, {e.wide:#x}",
+                    case=dict(concurrent_write=True, fmts=[f1, f2]))
+        finally:
+            ld.close()
+
+
 def run_shard(params):
     res = Result()
     rng = random.Random(params["seed"] * 100151 + params["shard"])
+    if params["shard"] < 4:
+        concurrent_write_leg(res, rng)
     for i in range(params["n"]):
         check_case(gen_case(rng), res, use_v=True)
         if i % 4 == 0:
@@ -632,6 +690,9 @@ def replay(v):
     res = Result()
     if v["case"].get("packet"):
         check_packet_case(v["case"], res)
+        return res
+    if v["case"].get("concurrent_write"):
+        concurrent_write_leg(res, random.Random(0))
         return res
     check_case(v["case"], res)
     return res
